@@ -318,6 +318,11 @@ func c07RoundTrip(e *Env, rig *Rig, last *Probe) {
 //go:norace
 func runC07Transport(e *Env) {
 	cc := e.drawChan(true, []int{2, 8})
+	if cc.Async {
+		// blocking mode: a full non-blocking queue would raise its own exception (queue full) and may close the
+		// channel before the injected transport fault does, which is not what this plan is about
+		cc.Until = true
+	}
 	what := e.P(3) // 0 write, 1 flush, 2 read
 	k := 1 + e.P(3)
 	swallow := e.P(2) == 1
